@@ -23,7 +23,7 @@ MANIFEST = {
              'HE: == symmetric, equal containers have the same hash key, the hash model hashes that key (C10_he_eq_sym, C10_he_frame_eq_hash, C10_he_series_eq_hash, '
              'C10_he_hash_model_is_key). The mask operands and include_none flags of TypeBlocks/Series/Index.equals, the equals keyword defaults and the keyword constants '
              'of SeriesHE/FrameHE.__eq__ are re-extracted from the source by ast on every run (Gen/Gen_c10.v); the theorems are stated over those generated constants '
-             '(C10_defaults_in_source, C10_masks_in_source, C10_he_options_in_source). No known finding remains (four were found and repaired: f01dccf, c228306, a6983c4, e1c1c73); their inputs stay as regression cases. '
+             '(C10_defaults_in_source, C10_masks_in_source, C10_he_options_in_source), as is the decision sequence of IndexHierarchy.equals and the fact that it never consults the cached label table (C10_hier_equals_walks_levels). No known finding remains (four were found and repaired: f01dccf, c228306, a6983c4, e1c1c73); their inputs stay as regression cases. '
              'Correspondence: TypeBlocks.equals called directly on exhaustively enumerated small block pairs (all cell pairs of the alphabet x 1-D/2-D x skipna; all pairs of '
              'NaN masks x all pairs of layouts) and random multi-dtype tables; Frame/Series/Index/IndexHierarchy/Bus.equals, HE ==, !=, hash, set and dict membership '
              'through the public interface on pairs differing in exactly one cell, label, dtype, name, class, layout, shape or order, with NaN/None/NaT on one or both '
@@ -45,7 +45,7 @@ RULE = ('kernel stratum: TypeBlocks.equals on block pairs -- every pair of 1-col
         'every pair of NaN masks of a 1xN float row x every pair of block layouts; api strata: a base container and a variant differing in exactly one of '
         '{nothing(copy), identity, cell, one-sided missing cell, label, order, shape, dtype, name, class, block layout, index kind}, for all 16 settings of '
         '(compare_name, compare_dtype, compare_class, skipna) on a fixed family and random settings elsewhere, both directions in one case; HE stratum: ==, !=, hash, '
-        'set and dict membership; triples for transitivity; malformed stream: other of another kind. A case is non-trivial when the two containers are different objects; '
+        'set and dict membership; histories of IndexHierarchyGO / FrameGO with hierarchical columns (readers at random points, append/extend/add-column of same or different labels, no reader between the last growth and equals; the answer must be a function of the current labels); triples for transitivity; malformed stream: other of another kind. A case is non-trivial when the two containers are different objects; '
         'distinct = distinct (recipe pair, options).')
 ASSUMPTIONS = [
     'NumPy == on the generated scalars is Python == (True == 1 == 1.0, NaN/NaT self-unequal, None == None); integers stay below 2**53 so int/float comparison is exact',
@@ -195,6 +195,32 @@ def _third_path_columnwise(fn):
         raise ValueError('TypeBlocks._ufunc_binary_operator: the non-reblock-compatible branch no longer takes axis_values(0)')
 
 
+def _hier_equals_steps(fn):
+    '''The decision sequence of IndexHierarchy.equals: one string per top-level statement (docstring skipped): the test of an
+    `if`, `return <expr>` of a return; and whether the cached label table (`_blocks`) or `_recache` is consulted anywhere.'''
+    steps = []
+    for node in fn.body:
+        if isinstance(node, ast.Expr) and isinstance(node.value, ast.Constant) and isinstance(node.value.value, str):
+            continue
+        if isinstance(node, ast.If):
+            tests = [ast.unparse(node.test)]
+            cur = node
+            while len(cur.orelse) == 1 and isinstance(cur.orelse[0], ast.If):
+                cur = cur.orelse[0]
+                tests.append(ast.unparse(cur.test))
+            steps.append('if ' + ' | elif '.join(tests))
+        elif isinstance(node, ast.Return):
+            v = node.value
+            if isinstance(v, ast.Call):
+                steps.append('return ' + ast.unparse(v.func) + '(' + ', '.join([ast.unparse(a) for a in v.args] + [k.arg for k in v.keywords]) + ')')
+            else:
+                steps.append('return ' + ast.unparse(v))
+        else:
+            steps.append(type(node).__name__ + ': ' + ast.unparse(node)[:80])
+    reads = any(isinstance(n, ast.Attribute) and n.attr in ('_blocks', '_recache') for n in ast.walk(fn))
+    return [t.replace('"', "'") for t in steps], reads
+
+
 def _zero_columns_answered(fn):
     '''a top-level `if self._shape[1] == 0: return True` before the `try: eq = self == other` of TypeBlocks.equals'''
     for node in fn.body:
@@ -245,6 +271,7 @@ def generate(repo):
         raise ValueError('FrameHE.__hash__ no longer hashes (tuple(index[.values]), tuple(columns[.values]))')
     if [a for a, _ in hs] != ['index']:
         raise ValueError('SeriesHE.__hash__ no longer hashes tuple(index[.values])')
+    ih_steps, ih_reads_table = _hier_equals_steps(_method(ih, 'IndexHierarchy', 'equals'))
     zero_ok = _zero_columns_answered(_method(tb, 'TypeBlocks', 'equals'))
     _third_path_columnwise(_method(tb, 'TypeBlocks', '_ufunc_binary_operator'))
     lines = ['(* GENERATED on every run by tools/sfv/props/c10.py:generate from static_frame/core/{type_blocks,frame,series,index,index_hierarchy,bus}.py -- do not edit. *)',
@@ -255,6 +282,10 @@ def generate(repo):
         lines.append(f'Definition {name} : mcfg := mk_mcfg {_b(cfg[0])} {_b(cfg[1])} {_b(cfg[2])} {_b(zero_ok if name == "c10_cfg_tb" else True)}.')
     lines.append('Definition c10_cfgs : mcfgs := mk_mcfgs c10_cfg_tb c10_cfg_series c10_cfg_index.')
     lines.append('(* checked: TypeBlocks._ufunc_binary_operator takes _blocks / _reblock() / axis_values(0) as operands (the three paths of M_tb_equals) *)')
+    lines.append('')
+    lines.append('(* IndexHierarchy.equals: its decisions in order, and whether it consults the cached label table (_blocks / _recache) *)')
+    lines.append('Definition c10_hier_equals_steps : list string := ' + lit.lst([lit.s(t) for t in ih_steps]) + '%string.')
+    lines.append(f'Definition c10_hier_reads_cached_table : bool := {_b(ih_reads_table)}.')
     lines.append('')
     lines.append('(* keyword defaults of equals: compare_name compare_dtype compare_class skipna *)')
     for k, d in defaults.items():
@@ -349,8 +380,56 @@ def build_bus(rec):
     return sf.Bus.from_frames(frames, name=dec(rec.get('name')))
 
 
+def _realise(ix, how):
+    '''a reader that makes a hierarchy realise (cache) its label table'''
+    if how == 'values':
+        ix.values
+    elif how == 'display':
+        str(ix)
+    elif how == 'reversed':
+        list(reversed(ix))
+    elif how == 'iloc':
+        ix.iloc[0]
+    elif how == 'len':
+        len(ix)
+    elif how != 'none':
+        raise ValueError(how)
+
+
+def build_index_history(rec):
+    '''an IndexHierarchyGO with a HISTORY: ops are ['read', how] | ['append', label] | ['extend', labels]'''
+    import static_frame as sf
+    ix = sf.IndexHierarchyGO.from_labels([tuple(dec(t) for t in lab) for lab in rec['labels']], name=dec(rec.get('name')))
+    for op in rec['ops']:
+        if op[0] == 'read':
+            _realise(ix, op[1])
+        elif op[0] == 'append':
+            ix.append(tuple(dec(t) for t in op[1]))
+        elif op[0] == 'extend':
+            ix.extend(sf.IndexHierarchy.from_labels([tuple(dec(t) for t in lab) for lab in op[1]]))
+        else:
+            raise ValueError(op)
+    return ix
+
+
+def build_frame_history(rec):
+    '''a FrameGO with hierarchical columns; ops: ['read', how] on the columns | ['add', label, values]'''
+    import static_frame as sf
+    cols = sf.IndexHierarchyGO.from_labels([tuple(dec(t) for t in lab) for lab in rec['columns']])
+    f = sf.FrameGO.from_records(rec['records'], columns=cols, name=dec(rec.get('name')))
+    for op in rec['ops']:
+        if op[0] == 'read':
+            _realise(f.columns, op[1])
+        elif op[0] == 'add':
+            f[tuple(dec(t) for t in op[1])] = list(op[2])
+        else:
+            raise ValueError(op)
+    return f
+
+
 def build(rec):
-    return {'index': build_index, 'series': build_series, 'frame': build_frame, 'bus': build_bus}[rec['kind']](rec)
+    return {'index': build_index, 'series': build_series, 'frame': build_frame, 'bus': build_bus,
+            'index-history': build_index_history, 'frame-history': build_frame_history}[rec['kind']](rec)
 
 
 # ------------------------------------------------------------------------------------------ objects -> literals
@@ -840,11 +919,12 @@ def pair_case(ctx, stratum, kind, ra, rb, o, what, identical=False, objs=None):
         b = a if identical else (build(rb) if kind != 'tb' else build_tb(rb))
     else:
         a, b = objs
+    # the calls come BEFORE anything is read from the containers: reading labels would refresh the caches of grow-only indexes
+    ab, rab = call_equals(kind, a, b, o)
+    ba, rba = call_equals(kind, b, a, o)
     ids = Ids()
     la = obj_lit(kind, a, ids)
     lb = obj_lit(kind, b, ids)
-    ab, rab = call_equals(kind, a, b, o)
-    ba, rba = call_equals(kind, b, a, o)
     ol = opts_lit(o)
     m = f'(let a := {la} in let b := {lb} in rb_eqb {m_call(kind, ol, "a", "b")} {ab} && rb_eqb {m_call(kind, ol, "b", "a")} {ba})'
     s = None
@@ -1123,6 +1203,120 @@ def api_bus_cases(ctx):
         yield from pair_case(ctx, 'api:bus.equals', 'bus', base, base, rand_opts(ctx.rng), 'shared-frames', objs=(a, b), identical=True)
 
 
+# ---- histories of grow-only hierarchies: equality is a function of the CURRENT labels, never of what was read when
+READERS = ['values', 'display', 'reversed', 'iloc', 'len']
+
+
+def _final_labels(rec):
+    labs = [list(l) for l in rec['labels']]
+    for op in rec['ops']:
+        if op[0] == 'append':
+            labs.append(list(op[1]))
+        elif op[0] == 'extend':
+            labs += [list(l) for l in op[1]]
+    return labs
+
+
+def _growths(rng, labels, count):
+    '''tree-compatible growth ops: the outer label is the last outer label or a new one'''
+    ops = []
+    last_outer = labels[-1][0]
+    used = {tuple(l) for l in labels}
+    fresh = iter(['x', 'y', 'z', 'w'])
+    for _ in range(count):
+        if rng.random() < 0.3:
+            outer = next(fresh)
+            ext = [[outer, i] for i in rng.sample([1, 2, 3], rng.randint(1, 2))]
+            ops.append(['extend', sorted(ext)])
+            last_outer = outer
+            used |= {tuple(l) for l in ext}
+            continue
+        outer = last_outer if rng.random() < 0.6 else next(fresh)
+        inner = rng.choice([i for i in (1, 2, 3, 4, 5, 6, 7) if (outer, i) not in used])
+        ops.append(['append', [outer, inner]])
+        used.add((outer, inner))
+        last_outer = outer
+    return ops
+
+
+def _interleave(rng, growths, p_read_before, trailing_reader):
+    ops = []
+    if rng.random() < p_read_before:
+        ops.append(['read', rng.choice(READERS)])
+    for g in growths:
+        ops.append(g)
+        if rng.random() < 0.25:
+            ops.append(['read', rng.choice(READERS)])
+    while ops and ops[-1][0] == 'read' and not trailing_reader:
+        ops.pop()            # no reader between the last growth and equals
+    if trailing_reader:
+        ops.append(['read', rng.choice(READERS)])
+    return ops
+
+
+def history_opts(rng):
+    r = rng.random()
+    if r < 0.55:
+        return dict(DEFAULT_OPTS)
+    if r < 0.85:
+        k = rng.choice(OPT_KEYS)
+        return dict(DEFAULT_OPTS, **{k: not DEFAULT_OPTS[k]})
+    return rand_opts(rng)
+
+
+def history_cases(ctx):
+    import copy
+    rng = ctx.rng
+    for _ in range(ctx.n(70, 700)):
+        outer = rng.sample(['a', 'b', 'c'], rng.randint(1, 2))
+        labels = [[x, y] for x in sorted(outer) for y in sorted(rng.sample([1, 2, 3], rng.randint(1, 2)))]
+        name = rng.choice([None, 'nm'])
+        g = _growths(rng, labels, rng.randint(1, 3))
+        ra = {'kind': 'index-history', 'labels': labels, 'name': name, 'ops': _interleave(rng, g, 0.8, rng.random() < 0.15)}
+        variants = []
+        # same labels, same growth, another reading history
+        variants.append(('same-labels-other-history', dict(ra, ops=_interleave(rng, copy.deepcopy(g), 0.5, rng.random() < 0.15))))
+        # same labels, built at once (tables up to date)
+        variants.append(('same-labels-built-at-once', {'kind': 'index-history', 'labels': _final_labels(ra), 'name': name, 'ops': []}))
+        # same start, realised alike, then DIFFERENT new labels (same count)
+        for _try in range(5):
+            g2 = _growths(rng, labels, len(g))
+            rb = dict(ra, ops=_interleave(rng, g2, 0.8, False))
+            if _final_labels(rb) != _final_labels(ra) and len(_final_labels(rb)) == len(_final_labels(ra)):
+                variants.append(('different-growth', rb))
+                break
+        rb = dict(ra, name='other', ops=copy.deepcopy(ra['ops']))
+        variants.append(('name', rb))
+        for what, rb in variants:
+            o = history_opts(rng)
+            case_list = pair_case(ctx, 'api:index.equals-histories', 'index', ra, rb, o, what)
+            for c in case_list:
+                c.desc['call'] = 'a.equals(b, **opts), b.equals(a, **opts) with a = sfv.props.c10.build(a_recipe) (IndexHierarchyGO.from_labels, then ops in order), nothing read in between'
+            yield from case_list
+    for _ in range(ctx.n(30, 300)):
+        cols = [['a', 1], ['a', 2]] if rng.random() < 0.5 else [['a', 1], ['b', 1]]
+        nrows = rng.randint(1, 2)
+        records = [[rng.randint(0, 3) for _ in cols] for _ in range(nrows)]
+        adds = []
+        last = cols[-1][0]
+        for k in range(rng.randint(1, 2)):
+            adds.append(['add', [last, 5 + k + rng.randint(0, 1) * 2], [rng.randint(0, 3) for _ in range(nrows)]])
+        ra = {'kind': 'frame-history', 'columns': cols, 'records': records, 'name': None, 'ops': _interleave(rng, adds, 0.8, False)}
+        variants = [('same-other-history', dict(ra, ops=_interleave(rng, copy.deepcopy(adds), 0.5, rng.random() < 0.2)))]
+        adds2 = copy.deepcopy(adds)
+        adds2[-1][1] = [adds2[-1][1][0], adds2[-1][1][1] + 10]
+        variants.append(('different-column-label', dict(ra, ops=_interleave(rng, adds2, 0.8, False))))
+        adds3 = copy.deepcopy(adds)
+        adds3[-1][2] = [v + 1 for v in adds3[-1][2]]
+        variants.append(('different-cell', dict(ra, ops=_interleave(rng, adds3, 0.8, False))))
+        for what, rb in variants:
+            o = history_opts(rng)
+            case_list = pair_case(ctx, 'api:frame.equals-histories', 'frame', ra, rb, o, what)
+            for c in case_list:
+                c.desc['call'] = 'a.equals(b, **opts), b.equals(a, **opts) with a = sfv.props.c10.build(a_recipe) (FrameGO.from_records over IndexHierarchyGO columns, then ops), nothing read in between'
+            yield from case_list
+
+
 # ---- HE
 def he_observe(a, b):
     plain = True
@@ -1281,6 +1475,7 @@ def cases(ctx):
     yield from api_frame_cases(ctx)
     yield from api_series_cases(ctx)
     yield from api_index_cases(ctx)
+    yield from history_cases(ctx)
     yield from api_bus_cases(ctx)
     yield from api_he_cases(ctx)
     yield from triple_cases(ctx)
